@@ -43,6 +43,12 @@ func (s *sharedEntryAttributes) toXmlInternal(parent *etree.Element, onlyNewOrUp
 		overallDoAdd := false
 
 		childs := s.filterActiveChoiceCaseChilds()
+		// an inactive child that is deleted as a whole is rendered (as delete), nothing else of it
+		for k, c := range s.childs.GetAll() {
+			if _, isActive := childs[k]; !isActive && c.shouldDelete() {
+				childs[k] = c
+			}
+		}
 
 		keys := make([]string, 0, len(childs))
 		for k := range childs {
@@ -71,8 +77,14 @@ func (s *sharedEntryAttributes) toXmlInternal(parent *etree.Element, onlyNewOrUp
 			}
 		})
 
+		// the elements of a choice case that was active before and is not any more are deleted as a whole further down
+		caseSwitchElems := s.choiceCaseSwitchElements()
+
 		// go through the ordered list of attributes and create the child elements
 		for _, k := range keys {
+			if slices.Contains(caseSwitchElems, k) {
+				continue
+			}
 			// recurse the call
 			// no additional element is created, since we're on a key level, so add to parent element
 			doAdd, err := childs[k].toXmlInternal(parent, onlyNewOrUpdated, honorNamespace, operationWithNamespace, useOperationRemove)
@@ -82,6 +94,9 @@ func (s *sharedEntryAttributes) toXmlInternal(parent *etree.Element, onlyNewOrUp
 			// only if there was something added in the childs, the element itself is meant to be added.
 			// we keep track of that via overAllDoAdd.
 			overallDoAdd = doAdd || overallDoAdd
+		}
+		if xmlAddChoiceCaseDeletes(parent, caseSwitchElems, operationWithNamespace, useOperationRemove) {
+			overallDoAdd = true
 		}
 		return overallDoAdd, nil
 	case *sdcpb.SchemaElem_Container:
@@ -135,8 +150,9 @@ func (s *sharedEntryAttributes) toXmlInternal(parent *etree.Element, onlyNewOrUp
 				if s.leafVariants.shouldDelete() {
 					return false, nil
 				}
-				le := s.leafVariants.GetHighestPrecedence(false, false)
-				if onlyNewOrUpdated && !(le.IsNew || le.IsUpdated) {
+				// the same criterion as for leafs: new, updated, or not (yet) present in running,
+				// e.g. because the choice case of the container just became the active one
+				if le := s.leafVariants.GetHighestPrecedence(true, false); le == nil {
 					return false, nil
 				}
 			}
@@ -161,8 +177,22 @@ func (s *sharedEntryAttributes) toXmlInternal(parent *etree.Element, onlyNewOrUp
 				})
 			}
 
+			// the childs that belong to inactive choice cases are not at the device and are not rendered; the elements
+			// of a case that was active before and is not any more are deleted as a whole further down
+			activeChilds := s.filterActiveChoiceCaseChilds()
+			caseSwitchElems := s.choiceCaseSwitchElements()
+
 			// iterate through all the childs
 			for _, k := range keys {
+				if slices.Contains(caseSwitchElems, k) {
+					continue
+				}
+				if _, isActive := activeChilds[k]; !isActive {
+					// an inactive child that is deleted as a whole is rendered (as delete), nothing else of it
+					if inactiveChild, exists := s.childs.GetEntry(k); !exists || !inactiveChild.shouldDelete() {
+						continue
+					}
+				}
 
 				// for namespace attr creation we need to handle the root node (s.parent == nil) specially
 				if s.parent != nil {
@@ -187,6 +217,12 @@ func (s *sharedEntryAttributes) toXmlInternal(parent *etree.Element, onlyNewOrUp
 				// if all the childs are meant to no be added, the whole container element should not be added
 				// so we keep track via overAllDoAdd
 				overallDoAdd = doAdd || overallDoAdd
+			}
+			if s.parent == nil {
+				newElem = parent
+			}
+			if xmlAddChoiceCaseDeletes(newElem, caseSwitchElems, operationWithNamespace, useOperationRemove) {
+				overallDoAdd = true
 			}
 			// so if there is at least a child and the s.parent is not nil (root node)
 			// then add p to the parent as a child
@@ -316,4 +352,34 @@ func xmlAddKeyElements(s Entry, parent *etree.Element) {
 		}
 		parent.InsertChildAt(idx, keyElem)
 	}
+}
+
+// choiceCaseSwitchElements returns the names of the elements of choice cases that were active before and are not any more.
+// These elements are removed as a whole. It is the XML counterpart of getChoiceCaseDeletes().
+func (s *sharedEntryAttributes) choiceCaseSwitchElements() []string {
+	result := []string{}
+	for _, v := range s.choicesResolvers {
+		oldBestCaseName := v.getOldBestCaseName()
+		newBestCaseName := v.getBestCaseName()
+		if oldBestCaseName == "" || newBestCaseName == "" || oldBestCaseName == newBestCaseName {
+			continue
+		}
+		for _, elemName := range v.getOldPopulatedElementNames(oldBestCaseName) {
+			// an element that is deleted anyhow gets its delete from the regular traversal
+			if child, exists := s.childs.GetEntry(elemName); exists && child.shouldDelete() {
+				continue
+			}
+			result = append(result, elemName)
+		}
+	}
+	slices.Sort(result)
+	return result
+}
+
+// xmlAddChoiceCaseDeletes adds a delete operation for every given element name.
+func xmlAddChoiceCaseDeletes(parent *etree.Element, elemNames []string, operationWithNamespace bool, useOperationRemove bool) bool {
+	for _, elemName := range elemNames {
+		utils.AddXMLOperation(parent.CreateElement(elemName), utils.XMLOperationDelete, operationWithNamespace, useOperationRemove)
+	}
+	return len(elemNames) > 0
 }
